@@ -1372,6 +1372,13 @@ class SpaceManager(SharedSpaceOperations):
             if is_valid_name(fname):
                 name = fname
 
+        if not is_valid_name(name):
+            # Auto-named: the name must be free in the sub spaces as well
+            while True:
+                name = space.cellsnamer.get_next(space.namespace)
+                if self._can_add(space, name, CellsImpl):
+                    break
+
         if not self._can_add(space, name, CellsImpl):
             raise ValueError("Cannot create cells '%s'" % name)
 
